@@ -702,10 +702,9 @@ fn read_from_file<R: Read>(reader: &mut R, num_bytes_to_read: usize) -> Rc<Objec
                 for byte in buf_slice.iter().take(bytes_read) {
                     result_bytes.push(Rc::new(Object::Byte(*byte)));
                 }
-                // Got fewer bytes than requested, so we're done
-                if bytes_read < read_len {
-                    break;
-                }
+                // A short read is not the end of the input (the reader's buffer
+                // may just have run empty, or a pipe delivered a partial chunk):
+                // keep reading until the requested count or EOF is reached.
                 total_bytes_read += bytes_read;
             }
             Err(e) => {
